@@ -207,6 +207,8 @@ class PWalker(Walker):
         if not self.comp:
             self.out.raw(vals[0])
             return vals
+        if nbytes > 63:
+            vals = [vals[0]] * len(vals)   # the 6-bit octet count cannot describe differing columns this wide
         if len(set(vals)) == 1:
             self.out.raw(vals[0])
             self.out.u(0, 6)
